@@ -63,6 +63,7 @@ func init() {
 			E9CubicDirection(c, r)
 			E3ContainmentFilter(c, r)
 			E9TangentFromRoots(c, r)
+			E9EndpointSnap(c, r)
 		},
 	})
 }
@@ -129,6 +130,7 @@ func init() {
 			E4LinebreakGuards(c, r)
 			E4AllocCoversIndex(c, r)
 			E4ForcedBreakDeactivates(c, r)
+			E11BreakSums(c, r)
 			r.Rule("E4.panic-reach-linebreak", "no explicit panic(...) is reachable from text.Linebreak")
 			E4PanicReachability(c, r, "E4.panic-reach-linebreak", []*ssa.Function{c.SSAFunc("text", "Linebreak")}, c17ReviewedPanics, true)
 		},
